@@ -92,7 +92,9 @@ PROPS = {
     "C10": dict(
         coq_targets=["Props/C10.vo"],
         harness=[dict(pkg="h_codec", bin="c10", cases={"quick": 450, "thorough": 6000},
-                      checkers=["corr", "oracle"], timeout=2400)],
+                      checkers=["corr", "oracle"], timeout=2400),
+                 dict(pkg="h_codec", bin="c10n", cases={"quick": 150, "thorough": 1500},
+                      checkers=["corr"], timeout=2400)],
         allowed_axioms=[],
         trusted_base=[
             "bytes::BytesMut as a byte list; tokio_util FramedRead modelled as: append chunk, decode until Ok(None)",
@@ -102,7 +104,7 @@ PROPS = {
         ],
         assumptions=[
             "theorems: generic streaming theorem; frame specs + any-chunking for WithLengthBytes, RawMapOperation, RawMapMessage, lane request/response over the three inner layers; no-panic for all modelled decoders except the command decoder. Store, downlink-operation, command and routed-message codecs: correspondence + oracle only",
-            "typed (Recon-bodied) codecs are outside the model (their bodies are C09's subject)",
+            "typed (Recon-bodied) codecs are outside the model (their bodies are C09's subject): the downlink notification codec and the typed map operation / map message / lane request / lane response codecs are checked on the real code only (h_codec/c10n: every sequence under every single split point, one byte per read and random multi-splits must decode to exactly what was encoded, the last frame without any byte after it, nothing left over; byte mutations must not panic or hang)",
             "decode_eof is not exercised",
         ],
     ),
@@ -249,8 +251,10 @@ PROPS = {
         ],
     ),
     "C09": dict(
-        coq_targets=["Props/C09.vo"],
+        coq_targets=["Props/C09.vo", "Model/ReconNum.vo"],
         harness=[dict(pkg="h_recon", bin="c09", cases={"quick": 300, "thorough": 3000},
+                      checkers=["corr"], timeout=2400),
+                 dict(pkg="h_recon", bin="c09n", cases={"quick": 600, "thorough": 6000},
                       checkers=["corr"], timeout=2400)],
         allowed_axioms=[],
         trusted_base=[
@@ -264,8 +268,10 @@ PROPS = {
         ],
     ),
     "C15": dict(
-        coq_targets=["Props/C15.vo"],
+        coq_targets=["Props/C15.vo", "Model/ReconNum.vo"],
         harness=[dict(pkg="h_recon", bin="c15", cases={"quick": 400, "thorough": 5000},
+                      checkers=["corr"], timeout=2400),
+                 dict(pkg="h_recon", bin="c09n", cases={"quick": 600, "thorough": 6000},
                       checkers=["corr"], timeout=2400)],
         allowed_axioms=[],
         trusted_base=[
